@@ -76,6 +76,7 @@ from astlib import TableError, find_func, cstr, cnat, cq, float_lit_exact
 NAT, BOOL, TRUTH, STR, REGEX, NONE = 'nat', 'bool', 'truth', 'str', 'regex', 'none'
 INT, QNUM, OPAQUE, FLOATLIT = 'int', 'Q', 'opaque', 'floatlit'
 DYN, UNIT, MSG, NDARRAY = 'dyn', 'unit', 'msg', 'ndarray'
+TOKEN = 'token'    # numeric data outside the translation, known only up to np.allclose: a nat, equal exactly when allclose holds
 ANY = '?'          # element type of an empty list display, fixed by its first use
 RAW = '__raw__'    # a complete return payload coming out of a loop / region (already coerced, state included)
 ST = 'st__'        # the Coq variable holding the current state (the mutated content dictionary)
@@ -121,8 +122,15 @@ class Fn:
 
     def __init__(self, coq_name, rel, name, ret, params, cls=None, inner=None, self_attrs=None, closure=None,
                  tparams=(), eqs=None, externals=None, returns_inner=None, templates=None, vops=None, prop=False,
-                 state=None, mutates=False, alias_path=False, imports=None, new_object=None, while_fuel=None):
+                 state=None, mutates=False, alias_path=False, imports=None, new_object=None, while_fuel=None, returns_stored=None, alias_vars=(), mutable_objs=(), local_dicts=None, classmethod=False, opaque_vars=()):
         self.coq_name, self.rel, self.name, self.cls, self.inner = coq_name, rel, name, cls, inner
+        self.classmethod = classmethod           # @classmethod: `klass` is read as `self` (class attributes, the constructor)
+        self.opaque_vars = tuple(opaque_vars)    # variables holding numeric data outside the translation: statements about them only are skipped
+        self.mutable_objs = tuple(mutable_objs)  # instance parameters whose content this function changes (and restores): their state is threaded too
+        self.local_dicts = dict(local_dicts or {})   # local variable -> DICT(K, V): a dictionary built in this function (x = {}; x[k] = v; x[k])
+        self.alias_vars = tuple(alias_vars)      # names that may be bound to a list stored in the state (hint for the flow analysis only)
+        self.returns_stored = returns_stored     # 'value' / 'pair': the result (its first component) IS the object stored under the key
+                                                 # argument in the class dictionary of the key's classification (checked on the source)
         self.externals = dict(externals or {})   # dotted Python name -> (Coq parameter name, [argument types], result type)
         self.returns_inner = returns_inner       # the function ends with `def <inner>..; return <inner>` (a closure)
         self.ret = ret
@@ -172,6 +180,7 @@ class Tr:
         self.objs = {}               # object variable -> dict(local=bool); attributes are <name>__<attr>, the state <name>__st
         self.used_obj = {}           # object parameter -> [set of attributes, state used]
         self.fresh_lists = set()
+        self.pending_va = None       # (variable, class node, key node): the statement being translated binds it to a list stored in the state
         self.size = 0
 
     # ------------------------------------------------------------------ helpers
@@ -184,7 +193,7 @@ class Tr:
         return '%s__%d' % (stem, self.tmp)
 
     def var(self, name, node):
-        if name in RESERVED or re.match(r'^(t|c|x|p|rv|st)__\d*$', name) or name.endswith('_src') or name.startswith('self_') \
+        if name in RESERVED or re.match(r'^(t|c|x|p|rv|st)__\d*$', name) or name.endswith('_src') or (name.startswith('self_') and name[5:] in [a_ for a_, _ in self.spec.self_attrs]) \
                 or name in self.spec.eqs.values() or name in self.spec.tparams or not re.match(r'^[A-Za-z_][A-Za-z0-9_]*$', name) \
                 or name == '_':
             self.fail(node, 'variable name %r collides with a name the translator emits' % name)
@@ -194,8 +203,10 @@ class Tr:
         return isinstance(t, str) and t in self.spec.tparams
 
     def ctype(self, t):
-        if t in (NAT,):
+        if t in (NAT, TOKEN):
             return 'nat'
+        if t == OBJ:            # an instance as a value: its header attributes in declaration order, then its content
+            return '(%s)%%type' % ' * '.join([self.ctype(t_) for _, t_ in self.spec.self_attrs] + ['jv'])
         if t == INT:
             return 'Z'
         if t == QNUM:
@@ -316,6 +327,8 @@ class Tr:
             return '(JInt (Z.of_nat %s))' % term
         if to == UNIT and ty == NONE:
             return 'tt'
+        if to == OPAQUE and ty in (OPAQUE, OPT(OPAQUE), NONE):
+            return 'tt'
         if to == DYN and ty == BOOL:
             return '(JBool %s)' % term
         if to == DYN and ty == NONE:
@@ -351,6 +364,8 @@ class Tr:
         """coerce, possibly with a bind: a dynamic value where an int is expected is converted (TypeError otherwise)"""
         if ty == DYN and to == INT:
             return self.bind('dyn_int %s' % term)
+        if ty == DYN and to == STR:                # a dynamic value (e.g. a key obtained by iterating a dictionary) where a str is expected
+            return self.bind('dyn_as_str %s' % term)
         if ty == DYN and to == LIST(DYN):          # a value passed where a sequence is expected
             return self.bind('dyn_seq %s' % term)
         return self.coerce(term, ty, to, node)
@@ -380,6 +395,8 @@ class Tr:
     # ------------------------------------------------------------------ external reads (templates)
     def tmatch(self, t, n, holes):
         if isinstance(t, ast.Name) and re.match(r'^_\d+$', t.id):
+            if int(t.id[1:]) in holes and ast.dump(holes[int(t.id[1:])]) != ast.dump(n):
+                return False          # a hole used twice stands for one expression
             holes[int(t.id[1:])] = n
             return True
         if type(t) is not type(n):
@@ -449,6 +466,8 @@ class Tr:
                 return 'None', NONE
             if isinstance(env[e.id], tuple) and env[e.id][0] == 'alias':
                 self.fail(e, 'a variable bound to a dictionary of an instance that changes can only be stored into')
+            if env.get('%stale:' + e.id):
+                self.fail(e, 'variable %s may name a list of the state that was extended through another name' % e.id)
             if isinstance(env[e.id], tuple) and env[e.id][0] == 'maybe':      # bound inside a loop that may not have run: UnboundLocalError
                 return self.bind('py_unbound %s__o' % e.id), env[e.id][1]
             if isinstance(env[e.id], tuple) and env[e.id][0] == 'closure':
@@ -476,6 +495,8 @@ class Tr:
             if NONE in (ta, tb) or TRUTH in (ta, tb):
                 self.fail(e, 'tuple component of unknown type')
             return '(%s, %s)' % (a, b), PAIR(ta, tb)
+        if isinstance(e, ast.Dict) and not e.keys:
+            return '(JObj [])', DYN               # an empty dict as a value
         if isinstance(e, ast.List):
             if not e.elts:
                 return '(@nil _)', LIST(ANY)
@@ -536,6 +557,9 @@ class Tr:
             if isinstance(ta, tuple) and ta[0] == 'dict' and not isinstance(e.slice, ast.Slice):
                 k, tk = self.expr(e.slice, env)
                 return self.bind('py_dict_get %s %s %s' % (self.eqb(ta[1], e), a, self.coerce(k, tk, ta[1], e))), ta[2]
+            if isinstance(ta, tuple) and ta[0] == 'option' and isinstance(ta[1], tuple) and ta[1][0] == 'pair' \
+                    and isinstance(e.slice, ast.Constant) and e.slice.value in (0, 1) and not isinstance(e.slice.value, bool):
+                a, ta = self.bind('py_some %s' % a), ta[1]        # None[i]: TypeError
             if isinstance(ta, tuple) and ta[0] == 'pair' and isinstance(e.slice, ast.Constant) and e.slice.value in (0, 1) \
                     and not isinstance(e.slice.value, bool):
                 return '(%s %s)' % ('fst' if e.slice.value == 0 else 'snd', a), ta[1 + e.slice.value]
@@ -641,6 +665,9 @@ class Tr:
         if isinstance(op, (ast.In, ast.NotIn)):
             if not (isinstance(tb, tuple) and tb[0] == 'list'):
                 self.fail(e, '`in` with a right operand of type %r' % (tb,))
+            if ta == OPT(tb[1]):      # None is not an element of a list of values that are not None
+                r = '(match %s with Some x__ => py_in %s x__ %s | None => false end)' % (a, self.eqb(tb[1], e), b)
+                return (r if isinstance(op, ast.In) else '(negb %s)' % r), BOOL
             if ta != tb[1]:
                 self.fail(e, '`in`: element type %r, list of %r' % (ta, tb[1]))
             r = '(py_in %s %s %s)' % (self.eqb(ta, e), a, b)
@@ -680,6 +707,16 @@ class Tr:
         """operands i.. of an and/or; operand i is evaluated here, the rest lazily"""
         is_and = isinstance(e.op, ast.And)
         v = e.values[i]
+        if is_and and i < len(e.values) - 1 and self.none_test(v, env) == 'isnot':
+            # `x is not None and REST`: REST is evaluated with x at its inner type
+            x = self.norm_test(v).left.id
+            env2 = dict(env)
+            env2[x] = env[x][1]
+            (r, rty), binds = self.lazy(lambda: self.boolop(e, i + 1, env2))
+            outty = BOOL if rty == BOOL else TRUTH
+            if binds:
+                return self.bind('(match %s with Some %s => %s | None => Ok false end)' % (x, x, self.wrap(binds, 'Ok %s' % r))), outty
+            return '(match %s with Some %s => %s | None => false end)' % (x, x, r), outty
         t, ty = self.expr(v, env)
         if i == len(e.values) - 1:
             return self.truth(t, ty, v), (BOOL if ty == BOOL else TRUTH)
@@ -714,6 +751,9 @@ class Tr:
         if isinstance(op, ast.BitAnd) and isinstance(ta, tuple) and ta[0] == 'set' and isinstance(tb, tuple) and tb[0] == 'set':
             a, b, t = self.set_unify(a, ta, b, tb, node)
             return '(py_inter %s %s %s)' % (self.eqb(t[1], node), a, b), t
+        if isinstance(op, ast.Sub) and isinstance(ta, tuple) and ta[0] == 'set' and isinstance(tb, tuple) and tb[0] == 'set':
+            a, b, t = self.set_unify(a, ta, b, tb, node)
+            return '(py_diff %s %s %s)' % (self.eqb(t[1], node), a, b), t
         if isinstance(op, ast.Mult) and isinstance(ta, tuple) and ta[0] == 'list' and tb == NAT:
             return '(py_repeat %s %s)' % (a, b), ta
         if isinstance(op, ast.Mult) and isinstance(tb, tuple) and tb[0] == 'list' and ta == NAT:
@@ -881,7 +921,7 @@ class Tr:
         return '%s__st' % obj
 
     def obj_mutable(self, obj):
-        return self.spec.mutates if obj == 'self' else self.objs[obj]['local']
+        return self.spec.mutates if obj == 'self' else (self.objs[obj]['local'] or obj in self.spec.mutable_objs)
 
     def is_obj(self, node, env):
         if isinstance(node, ast.Name) and node.id == 'self' and 'self' not in env:
@@ -960,6 +1000,13 @@ class Tr:
 
     def call_rest(self, e, env):
         f = e.func
+        if isinstance(f, ast.Attribute) and isinstance(f.value, ast.Name) and f.value.id == 'np' and 'np' not in env \
+                and f.attr == 'allclose' and len(e.args) == 2 and not e.keywords:
+            (a, ta), ab = self.lazy(lambda: self.expr(e.args[0], env))
+            (b, tb), bb = self.lazy(lambda: self.expr(e.args[1], env))
+            if ta == TOKEN and tb == TOKEN:
+                self.binds += ab + bb
+                return '(Nat.eqb %s %s)' % (a, b), BOOL
         if isinstance(f, ast.Attribute) and f.attr == 'join' and len(e.args) == 1 and isinstance(f.value, ast.Constant) \
                 and isinstance(f.value.value, str):
             a, ta = self.expr(e.args[0], env)
@@ -1007,7 +1054,7 @@ class Tr:
                 if isinstance(n, ast.Name) and isinstance(n.ctx, ast.Store) and n.id not in out:
                     out.append(n.id)
                 if isinstance(n, ast.Expr) and isinstance(n.value, ast.Call) and isinstance(n.value.func, ast.Attribute) \
-                        and n.value.func.attr == 'extend' and isinstance(n.value.func.value, ast.Name) \
+                        and n.value.func.attr in ('extend', 'append') and isinstance(n.value.func.value, ast.Name) \
                         and n.value.func.value.id not in out:
                     out.append(n.value.func.value.id)
         return out
@@ -1097,7 +1144,7 @@ class Tr:
         exits = []
         saved = (self.tmp, self.size, set(self.fresh_lists))
         self.block([inner], env, lambda env2, ind2: (exits.append(dict(env2)), '')[1], ret_reg, ind + 1)
-        self.tmp, self.size, self.fresh_lists = saved
+        self.tmp, self.size, self.fresh_lists = saved; self.pending_va = None
         if not exits:
             raise TableError('region: no exit')
         carried, types = [], {}
@@ -1158,17 +1205,169 @@ class Tr:
                 ob = self.is_obj(tg.value.func.value, env)
                 if cal is not None and cal.alias_path and ob:
                     return ST if ob == 'self' else '%s__st' % ob
+        if isinstance(n, ast.Assign) and self.class_store(n, env) is not None:
+            ob = self.class_store(n, env)[0]
+            return ST if ob == 'self' else '%s__st' % ob
         if isinstance(n, ast.Call) and isinstance(n.func, ast.Attribute):
             ob = self.is_obj(n.func.value, env)
             cal = self.registry.get((self.spec.cls, n.func.attr))
             if ob and cal is not None and cal.mutates:
                 return ST if ob == 'self' else '%s__st' % ob
+            if n.func.attr == 'extend' and self.spec.mutates:
+                r = n.func.value
+                if isinstance(r, ast.Name) and (('%va:' + r.id) in env or r.id in self.spec.alias_vars):
+                    return ST
+                if isinstance(r, ast.Call) and isinstance(r.func, ast.Attribute) and self.is_obj(r.func.value, env) == 'self' \
+                        and getattr(self.registry.get((self.spec.cls, r.func.attr)), 'returns_stored', None) == 'value':
+                    return ST
         return None
 
+    # ---- lists of the state reached through a name: x = self.get_values(k) / x, c = self.get_values_and_class(k) /
+    #      x = self.get_class_dict(C)[k];  x.extend(e) then changes the state.  The name is usable for that only until the next
+    #      change of the state on the path; other names that may reach the same list cannot be read after the extension.
+    @staticmethod
+    def kill_va(env, keep=None):
+        return dict((k_, v_) for k_, v_ in env.items()
+                    if not (isinstance(k_, str) and k_.startswith('%va:') and k_ != ('%va:' + keep if keep else None)))
+
+    @staticmethod
+    def has_va(env):
+        return any(isinstance(k_, str) and k_.startswith('%va:') for k_ in env)
+
+    def obj_valued(self, e, env):
+        """is e an expression whose value is an instance: an element / a loop variable of a list of instances"""
+        if isinstance(e, ast.Name):
+            return env.get(e.id) == OBJ
+        if isinstance(e, ast.Subscript) and isinstance(e.value, ast.Name) and env.get(e.value.id) == LIST(OBJ) \
+                and not isinstance(e.slice, ast.Slice):
+            return True
+        return False
+
+    def opaque_only(self, st, env):
+        """a statement that only computes / stores numeric data outside the translation (declared opaque variables, opaque
+        attributes): no other store, no call except np.allclose; such a statement is skipped"""
+        if not self.spec.opaque_vars or not isinstance(st, (ast.Assign, ast.If)):
+            return False
+        opq_attrs = set(a_ for a_, t_ in self.spec.self_attrs if t_ == OPAQUE)
+        stores = False
+        for n in ast.walk(st):
+            if isinstance(n, ast.Name) and isinstance(n.ctx, ast.Store):
+                if n.id not in self.spec.opaque_vars:
+                    return False
+                stores = True
+            elif isinstance(n, ast.Attribute) and isinstance(n.ctx, ast.Store):
+                if n.attr not in opq_attrs or not self.is_obj(n.value, env):
+                    return False
+                stores = True
+            elif isinstance(n, ast.Subscript) and isinstance(n.ctx, ast.Store):
+                return False
+            elif isinstance(n, ast.Call):
+                f = n.func
+                if not (isinstance(f, ast.Attribute) and isinstance(f.value, ast.Name) and f.value.id == 'np' and f.attr == 'allclose'):
+                    return False
+            elif isinstance(n, (ast.For, ast.While, ast.Return, ast.Raise, ast.Delete, ast.AugAssign, ast.Break, ast.Continue)):
+                return False
+        return stores
+
+    def class_store(self, st, env):
+        """<instance>.<state>[A][B] = V  ->  (instance, A node, B node), else None"""
+        if isinstance(st, ast.Assign) and len(st.targets) == 1:
+            tg = st.targets[0]
+            if isinstance(tg, ast.Subscript) and isinstance(tg.value, ast.Subscript) and isinstance(tg.value.value, ast.Attribute) \
+                    and self.spec.state and tg.value.value.attr == self.spec.state and self.is_obj(tg.value.value.value, env) \
+                    and not isinstance(tg.slice, ast.Slice) and not isinstance(tg.value.slice, ast.Slice):
+                return self.is_obj(tg.value.value.value, env), tg.value.slice, tg.slice
+        return None
+
+    def va_binding(self, st, env):
+        if not (self.spec.state and self.spec.mutates and self.spec.alias_vars and isinstance(st, ast.Assign) and len(st.targets) == 1):
+            return None
+        tg, v = st.targets[0], st.value
+        first = tg.elts[0] if isinstance(tg, ast.Tuple) and tg.elts else tg
+        if not (isinstance(first, ast.Name) and first.id in self.spec.alias_vars):
+            return None          # only the names the specification declares are followed
+        if isinstance(v, ast.Call) and isinstance(v.func, ast.Attribute) and self.is_obj(v.func.value, env) == 'self' \
+                and len(v.args) == 1 and not v.keywords and isinstance(v.args[0], ast.Name):
+            rs = getattr(self.registry.get((self.spec.cls, v.func.attr)), 'returns_stored', None)
+            if rs == 'pair' and isinstance(tg, ast.Tuple) and len(tg.elts) == 2 and all(isinstance(x_, ast.Name) for x_ in tg.elts):
+                return tg.elts[0].id, ast.copy_location(ast.Name(id=tg.elts[1].id, ctx=ast.Load()), st), v.args[0]
+            if rs == 'value' and isinstance(tg, ast.Name):
+                c = ast.Call(func=ast.Attribute(value=v.func.value, attr='get_classification', ctx=ast.Load()), args=[v.args[0]], keywords=[])
+                return tg.id, ast.fix_missing_locations(ast.copy_location(c, st)), v.args[0]
+        if isinstance(tg, ast.Name) and isinstance(v, ast.Subscript) and isinstance(v.slice, ast.Name) and isinstance(v.value, ast.Call) \
+                and isinstance(v.value.func, ast.Attribute) and self.is_obj(v.value.func.value, env) == 'self' \
+                and getattr(self.registry.get((self.spec.cls, v.value.func.attr)), 'alias_path', False) and len(v.value.args) == 1:
+            return tg.id, v.value.args[0], v.slice
+        return None
+
+    def va_extend(self, st, rest, env, k, ret, ind):
+        """x.extend(E) / self.get_values(K).extend(E) on a list stored in the state; None when st is not of that form"""
+        pad = '  ' * ind
+        if not (isinstance(st, ast.Expr) and isinstance(st.value, ast.Call) and isinstance(st.value.func, ast.Attribute)
+                and st.value.func.attr == 'extend' and len(st.value.args) == 1 and not st.value.keywords):
+            return None
+        r, arg = st.value.func.value, st.value.args[0]
+        sv = self.obj_state('self')
+        if isinstance(r, ast.Name) and ('%va:' + r.id) in env:
+            x = r.id
+            cv, tc_, kv = env['%va:' + x]
+            if not isinstance(arg, ast.Name):
+                self.fail(st, '.extend() of a stored list with something else than a variable')
+
+            def eve():
+                t_, ty_ = self.expr(arg, env)
+                nx = self.bind('dyn_extend %s %s' % (x, self.coerce_m(t_, ty_, DYN, st)))
+                return nx, (self.bind('py_some %s' % cv) if tc_ == OPT(CNAME) else cv)
+            (nx, c2), binds = self.lazy(eve)
+            env2 = self.kill_va(env, keep=x)
+            keepx = x
+            text = self.lines(binds, pad) + '%slet %s := %s in\n%sdo %s <- dyn_set2 %s (fst %s) (snd %s) %s %s;\n' % (pad, x, nx, pad, sv, sv, c2, c2, kv, x)
+        elif isinstance(r, ast.Call) and isinstance(r.func, ast.Attribute) and self.is_obj(r.func.value, env) == 'self' \
+                and getattr(self.registry.get((self.spec.cls, r.func.attr)), 'returns_stored', None) == 'value' \
+                and len(r.args) == 1 and isinstance(r.args[0], ast.Name) and isinstance(arg, ast.Name):
+            cnode = ast.fix_missing_locations(ast.copy_location(
+                ast.Call(func=ast.Attribute(value=r.func.value, attr='get_classification', ctx=ast.Load()), args=[r.args[0]], keywords=[]), st))
+
+            def eve2():
+                v_, tv_ = self.expr(r, env)
+                t_, ty_ = self.expr(arg, env)
+                nx = self.bind('dyn_extend %s %s' % (self.coerce_m(v_, tv_, DYN, st), self.coerce_m(t_, ty_, DYN, st)))
+                c_, tc_ = self.expr(cnode, env)
+                if tc_ != OPT(CNAME):
+                    self.fail(st, 'classification of type %r' % (tc_,))
+                k_, tk_ = self.expr(r.args[0], env)
+                return nx, self.bind('py_some %s' % c_), k_
+            (nx, c2, k_), binds = self.lazy(eve2)
+            env2 = self.kill_va(env)
+            keepx = None
+            text = self.lines(binds, pad) + '%sdo %s <- dyn_set2 %s (fst %s) (snd %s) %s %s;\n' % (pad, sv, sv, c2, c2, k_, nx)
+        else:
+            return None
+        env2 = dict(env2)
+        for k_ in list(env2):
+            if isinstance(k_, str) and k_.startswith('%vo:') and k_[4:] != keepx:
+                env2['%stale:' + k_[4:]] = True
+        return text + self.block(rest, env2, k, ret, ind)
+
     def assigned_st(self, stmts, env=None):
-        out = self.assigned(stmts)
+        out = [v_ for v_ in self.assigned(stmts) if v_ not in self.spec.opaque_vars]
         for s_ in stmts:
             for n in ast.walk(s_):
+                if isinstance(n, ast.Assign) and len(n.targets) == 1 and isinstance(n.targets[0], ast.Subscript) \
+                        and isinstance(n.targets[0].value, ast.Name) and n.targets[0].value.id in self.spec.local_dicts \
+                        and n.targets[0].value.id not in out:
+                    out.append(n.targets[0].value.id)       # x[k] = v on a dictionary built in this function rebinds x
+                if isinstance(n, ast.Subscript) and isinstance(n.ctx, ast.Store) and isinstance(n.value, ast.Name) \
+                        and n.value.id in self.fresh_lists and n.value.id not in out:
+                    out.append(n.value.id)                  # l[i] = v on a list built in this function rebinds l
+                if isinstance(n, ast.Assign) and len(n.targets) == 1 and isinstance(n.targets[0], ast.Attribute) \
+                        and isinstance(n.targets[0].value, ast.Name) and self.objs.get(n.targets[0].value.id, {}).get('local') \
+                        and self.spec.new_object and dict(self.spec.self_attrs).get(n.targets[0].attr, OPAQUE) != OPAQUE:
+                    ob, at = n.targets[0].value.id, n.targets[0].attr
+                    for v_ in ['%s__%s' % (ob, at)] + ['%s__%s' % (ob, a_) for a_, (_, fargs) in self.spec.new_object.get('derived', {}).items()
+                                                       if at in fargs]:
+                        if v_ not in out:
+                            out.append(v_)
                 v = self.mutated_state(n, env or {})
                 if v and v not in out:
                     out.append(v)
@@ -1223,12 +1422,146 @@ class Tr:
     def block(self, stmts, env, k, ret, ind):
         """stmts: remaining statements; k(env, ind) -> text for falling off the end; ret(term, type, node) -> text"""
         pad = '  ' * ind
+        if self.pending_va is not None:
+            x_, cnode, knode = self.pending_va
+            self.pending_va = None
+
+            def evp():
+                c_, tc_ = self.expr(cnode, env)
+                k_, tk_ = self.expr(knode, env)
+                if tc_ not in (CNAME, OPT(CNAME)) or tk_ != STR:
+                    self.fail(cnode, 'stored list with a class of type %r under a key of type %r' % (tc_, tk_))
+                return c_, tc_, k_
+            (c_, tc_, k_), bindsp = self.lazy(evp)
+            env = dict(env)
+            env['%va:' + x_] = ('%s__vc' % x_, tc_, '%s__vk' % x_)
+            env['%vo:' + x_] = True
+            env.pop('%stale:' + x_, None)
+            return (self.lines(bindsp, pad) + '%slet %s__vc := %s in\n%slet %s__vk := %s in\n' % (pad, x_, c_, pad, x_, k_)
+                    + self.block(stmts, env, k, ret, ind))
         if not stmts:
             return k(env, ind)
         st, rest = stmts[0], stmts[1:]
         if isinstance(st, ast.Pass) or (isinstance(st, ast.Expr) and isinstance(st.value, ast.Constant)
                                         and isinstance(st.value.value, str)):
             return self.block(rest, env, k, ret, ind)
+        if self.spec.state and self.spec.mutates:
+            r_ = self.va_extend(st, rest, env, k, ret, ind)
+            if r_ is not None:
+                return r_
+            if self.has_va(env) and not isinstance(st, ast.If) and any(self.mutated_state(n_, env) for n_ in ast.walk(st)):
+                env = self.kill_va(env)        # the state changes: the names no longer reach its lists
+            vb = self.va_binding(st, env)
+            if vb is not None:
+                self.pending_va = vb           # taken up by the translation of the statements that follow this one
+        if isinstance(st, ast.Assign) and len(st.targets) == 1 and isinstance(st.targets[0], ast.Name) \
+                and st.targets[0].id in self.spec.local_dicts and isinstance(st.value, ast.Dict) and not st.value.keys:
+            x = self.var(st.targets[0].id, st)       # x = {}: a dictionary built in this function
+            td = self.spec.local_dicts[x]
+            env2 = dict(env)
+            env2[x] = td
+            return '%slet %s := (@nil (%s * %s)%%type) in\n' % (pad, x, self.ctype(td[1]), self.ctype(td[2])) + self.block(rest, env2, k, ret, ind)
+        if isinstance(st, ast.Assign) and len(st.targets) == 1 and isinstance(st.targets[0], ast.Subscript) \
+                and isinstance(st.targets[0].value, ast.Name) and st.targets[0].value.id in self.spec.local_dicts \
+                and env.get(st.targets[0].value.id) == self.spec.local_dicts[st.targets[0].value.id] \
+                and not isinstance(st.targets[0].slice, ast.Slice):
+            x = st.targets[0].value.id               # x[k] = v on that dictionary
+            td = env[x]
+
+            def evd():
+                v_, tv_ = self.expr(st.value, env)
+                k_, tk_ = self.expr(st.targets[0].slice, env)
+                return self.coerce_m(v_, tv_, td[2], st), self.coerce(k_, tk_, td[1], st)
+            (v_, k_), binds = self.lazy(evd)
+            return (self.lines(binds, pad) + '%slet %s := py_dict_set %s %s %s %s in\n' % (pad, x, self.eqb(td[1], st), x, k_, v_)
+                    + self.block(rest, env, k, ret, ind))
+        if self.opaque_only(st, env):
+            return self.block(rest, env, k, ret, ind)          # numeric bookkeeping outside the translation
+        if isinstance(st, ast.AugAssign) and isinstance(st.target, ast.Subscript) and isinstance(st.target.value, ast.Name) \
+                and isinstance(st.target.slice, (ast.Name, ast.Constant)):
+            # l[i] op= e  ->  l[i] = l[i] op e   (the index is a variable or a literal: evaluating it twice changes nothing)
+            load = ast.Subscript(value=ast.Name(id=st.target.value.id, ctx=ast.Load()), slice=st.target.slice, ctx=ast.Load())
+            new = ast.Assign(targets=[st.target], value=ast.BinOp(left=load, op=st.op, right=st.value))
+            ast.copy_location(new, st)
+            for n_ in ast.walk(new):
+                ast.copy_location(n_, st)
+            return self.block([new] + rest, env, k, ret, ind)
+        if isinstance(st, ast.Expr) and isinstance(st.value, ast.Call) and isinstance(st.value.func, ast.Attribute) \
+                and st.value.func.attr == 'append' and isinstance(st.value.func.value, ast.Name) \
+                and len(st.value.args) == 1 and not st.value.keywords and st.value.func.value.id in self.fresh_lists \
+                and isinstance(env.get(st.value.func.value.id), tuple) and env[st.value.func.value.id][0] == 'list':
+            x = st.value.func.value.id               # x.append(e) on a list built in this function
+            tx = env[x]
+
+            def eva():
+                v_, tv_ = self.expr(st.value.args[0], env)
+                return self.coerce_m(v_, tv_, tx[1], st)
+            v_, binds = self.lazy(eva)
+            return self.lines(binds, pad) + '%slet %s := (%s ++ [%s]) in\n' % (pad, x, x, v_) + self.block(rest, env, k, ret, ind)
+        if isinstance(st, ast.Assign) and len(st.targets) == 1 and isinstance(st.targets[0], ast.Name) \
+                and (st.targets[0].id not in env or st.targets[0].id in self.objs) and self.obj_valued(st.value, env):
+            # x = <an element of a list of instances>: x names that instance (read-only)
+            x = st.targets[0].id
+            if x in self.objs and not self.objs[x].get('elem'):
+                self.fail(st, 'instance variable %s is already bound' % x)
+            if x not in self.objs:
+                self.var(x, st)
+            binds, t, ty = self.stmt_expr(st.value, env)
+            self.objs[x] = {'local': False, 'elem': True}
+            names = ['%s__%s' % (x, a_) for a_, _ in self.spec.self_attrs] + ['%s__st' % x]
+            env2 = dict(env)
+            env2['%s__st' % x] = DYN
+            return self.lines(binds, pad) + "%slet '(%s) := %s in\n" % (pad, ', '.join(names), t) + self.block(rest, env2, k, ret, ind)
+        if isinstance(st, ast.Assign) and len(st.targets) == 1 and isinstance(st.targets[0], ast.Attribute) \
+                and self.is_obj(st.targets[0].value, env) and self.is_obj(st.targets[0].value, env) != 'self' \
+                and self.objs[self.is_obj(st.targets[0].value, env)]['local'] \
+                and st.targets[0].attr in dict(self.spec.self_attrs) and self.spec.new_object:
+            # <local instance>.<header attribute> = v: the attribute (and what is derived from it) is rebound
+            ob, at = self.is_obj(st.targets[0].value, env), st.targets[0].attr
+            ta_ = dict(self.spec.self_attrs)[at]
+            if ta_ == OPAQUE:
+                return self.block(rest, env, k, ret, ind)
+            if at not in self.spec.new_object['attrs']:
+                self.fail(st, 'assignment to attribute %s, which the constructor does not set' % at)
+
+            chk = self.spec.new_object.get('setters', {}).get(at)
+            if chk is None:
+                self.fail(st, 'assignment to attribute %s without a declared (and verified) property setter' % at)
+
+            def evs():
+                v_, tv_ = self.expr(st.value, env)
+                v_ = self.coerce_m(v_, tv_, ta_, st)
+                if not chk['check']:
+                    return v_, None
+                nm = self.fresh('t')
+                c_, tc_ = self.expr(ast.parse(chk['check'], mode='eval').body, dict(env, value=ta_))
+                return v_, (nm, self.truth(c_, tc_, st))
+            (v_, ck), binds = self.lazy(evs)
+            text = self.lines(binds, pad)
+            if ck is not None:       # the setter: `if not <check>: raise <error>`, then the store
+                text += '%slet value := %s in\n%sdo %s <- (if %s then Ok tt else Err %s);\n' % (pad, v_, pad, ck[0], ck[1], EXC[chk['err']])
+                v_ = 'value'
+            text += '%slet %s__%s := %s in\n' % (pad, ob, at, v_)
+            for a_, (fun_, fargs) in self.spec.new_object.get('derived', {}).items():
+                if at in fargs:
+                    text += '%sdo %s__%s <- %s %s;\n' % (pad, ob, a_, fun_, ' '.join('%s__%s' % (ob, b_) for b_ in fargs))
+            return text + self.block(rest, env, k, ret, ind)
+        if self.class_store(st, env) is not None:
+            ob, an, bn = self.class_store(st, env)   # <instance>.<state>[a][b] = v: a whole class dictionary is replaced
+            if not self.obj_mutable(ob):
+                self.fail(st, 'store into an instance this function may not change')
+
+            def evc():
+                v_, tv_ = self.expr(st.value, env)
+                a_, ta_ = self.expr(an, env)
+                b_, tb_ = self.expr(bn, env)
+                if ta_ != STR or tb_ != STR:
+                    self.fail(st, 'class dictionary addressed by %r / %r' % (ta_, tb_))
+                return self.coerce_m(v_, tv_, DYN, st), a_, b_
+            (v_, a_, b_), binds = self.lazy(evc)
+            sv = self.obj_state(ob)
+            env2 = self.kill_va(env) if ob == 'self' else env
+            return self.lines(binds, pad) + '%sdo %s <- dyn_setc2 %s %s %s %s;\n' % (pad, sv, sv, a_, b_, v_) + self.block(rest, env2, k, ret, ind)
         if isinstance(st, ast.Assign) and len(st.targets) == 1 and isinstance(st.targets[0], ast.Subscript) \
                 and isinstance(st.targets[0].value, ast.Name) and st.targets[0].value.id in self.fresh_lists \
                 and isinstance(env.get(st.targets[0].value.id), tuple) and env[st.targets[0].value.id][0] == 'list' \
@@ -1248,12 +1581,14 @@ class Tr:
             if self.tmatch(ast.parse(no['src'], mode='eval').body, st.value, holes):
                 # x = <constructor>(..): a new instance; its header attributes are let-bound, its content comes from the parameter
                 x = self.var(st.targets[0].id, st)
-                if x in env or x in self.objs:
-                    self.fail(st, 'instance variable %s is already bound' % x)
+                if x in env or ('%s__st' % x) in env or (x in self.objs and not self.objs[x]['local']):
+                    self.fail(st, 'instance variable %s is already bound' % x)      # (a name left by an abandoned pass may be bound again)
 
                 def ev4():
                     out = []
                     for a_, t_ in self.spec.self_attrs:
+                        if a_ in no.get('derived_params', {}):
+                            continue
                         srcv = no['attrs'].get(a_, 'self')
                         if srcv == 'self':
                             out.append((a_, self.obj_attr('self', a_)))
@@ -1272,8 +1607,14 @@ class Tr:
                     text += '%sdo %s__%s <- %s %s;\n' % (pad, x, a_, fun_, ' '.join('%s__%s' % (x, b_) for b_ in fargs))
                 if (no['content'], no['content_sig']) not in self.used_tpl:
                     self.used_tpl.append((no['content'], no['content_sig']))
+                for a_, (fun_, fargs, sig_) in no.get('derived_params', {}).items():
+                    text += '%sdo %s__%s <- %s %s;\n' % (pad, x, a_, fun_, ' '.join('%s__%s' % (x, b_) for b_ in fargs))
+                    if (fun_, sig_) not in self.used_tpl:
+                        self.used_tpl.append((fun_, sig_))
                 env2 = dict(env)
                 env2['%s__st' % x] = DYN
+                for a_, t_ in self.spec.self_attrs:       # the attributes are variables: they can be rebound (x.attr = v) and carried by loops
+                    env2['%s__%s' % (x, a_)] = t_
                 return text + self.block(rest, env2, k, ret, ind)
         if isinstance(st, (ast.Assign, ast.Delete)) and len(st.targets) == 1 and isinstance(st.targets[0], ast.Subscript) \
                 and not isinstance(st.targets[0].slice, ast.Slice):
@@ -1444,14 +1785,15 @@ class Tr:
                 self.fail(rest[0], 'statement after assert False')
             return pad + 'Err ECrash\n'
         if isinstance(st, ast.If) and self.can_fall(st.body) and self.can_fall(st.orelse) and self.big(rest) \
-                and not any(isinstance(n, (ast.Continue, ast.Break)) for n in ast.walk(st)):
+                and not any(isinstance(n, (ast.Continue, ast.Break)) for n in ast.walk(st)) \
+                and not (self.has_va(env) and any(self.mutated_state(n, env) for n in ast.walk(st))):
             # both branches fall through into a long continuation: translate the `if` as a region with an explicit outcome
             # (Ret = a return inside it, Next = the variables it assigned) instead of copying the continuation into each branch
             saved = (self.tmp, self.size, set(self.fresh_lists))
             try:
                 return self.region(st, rest, env, k, ret, ind)
             except TableError:
-                self.tmp, self.size, self.fresh_lists = saved    # e.g. the continuation needs a type narrowed by the test: copy it instead
+                self.tmp, self.size, self.fresh_lists = saved; self.pending_va = None    # e.g. the continuation needs a type narrowed by the test: copy it instead
         if isinstance(st, ast.If):
             def k2(env2, ind2):
                 saved_c = self.cont_stmts
@@ -1503,13 +1845,13 @@ class Tr:
                         % (pad, x, pad, x, some, pad, self.block(st.orelse, env, k2, ret, ind + 1), pad))
             binds, t, ty = self.stmt_expr(c, env)
             env_then, pre = env, ''
-            if isinstance(c, ast.Compare) and len(c.ops) == 1 and isinstance(c.ops[0], ast.Eq) and isinstance(c.left, ast.Name) \
+            if isinstance(c, ast.Compare) and len(c.ops) == 1 and isinstance(c.ops[0], (ast.Eq, ast.In)) and isinstance(c.left, ast.Name) \
                     and isinstance(env.get(c.left.id), tuple) and env[c.left.id][0] == 'option':
                 (_, trhs), _b = self.lazy(lambda: self.expr(c.comparators[0], env))
-                if trhs == env[c.left.id][1]:
+                if trhs == (env[c.left.id][1] if isinstance(c.ops[0], ast.Eq) else LIST(env[c.left.id][1])):
                     # in the branch of `x == e` (e not None) x is not None: it has its inner type (the conversion cannot fail)
                     env_then = dict(env)
-                    env_then[c.left.id] = trhs
+                    env_then[c.left.id] = env[c.left.id][1]
                     pre = '%s  do %s <- py_the %s;\n' % (pad, c.left.id, c.left.id)
             return ('%s%sif %s then\n%s%s%selse\n%s'
                     % (self.lines(binds, pad), pad, self.truth(t, ty, c), pre, self.block(st.body, env_then, k2, ret, ind + 1), pad,
@@ -1517,6 +1859,23 @@ class Tr:
 
     def loops(self, st, rest, env, k, ret, ind):
         pad = '  ' * ind
+        if isinstance(st, ast.For) and isinstance(st.target, ast.Name) and not st.target.id.endswith('__e'):
+            saved_ = (self.tmp, self.size, list(self.binds))
+            try:
+                (_, ts_), _b = self.lazy(lambda: self.expr(st.iter, env))
+            except TableError:
+                ts_ = None
+            self.tmp, self.size, self.binds = saved_
+            if ts_ == LIST(OBJ):
+                # a loop over instances: the loop variable is an element, bound to an instance name by the first statement
+                el = ast.Name(id=st.target.id + '__e', ctx=ast.Store())
+                bind_ = ast.Assign(targets=[ast.Name(id=st.target.id, ctx=ast.Store())], value=ast.Name(id=st.target.id + '__e', ctx=ast.Load()))
+                new = ast.For(target=el, iter=st.iter, body=[bind_] + list(st.body), orelse=st.orelse)
+                ast.copy_location(new, st)
+                ast.fix_missing_locations(new)
+                for n_ in ast.walk(bind_):
+                    ast.copy_location(n_, st)
+                return self.loops(new, rest, env, k, ret, ind)
         if isinstance(st, ast.For):
             brk = bool(st.orelse) or self.own_breaks(st)       # for/else and break: py_for_b with a third outcome
             if isinstance(st.target, ast.Name):
@@ -1602,7 +1961,7 @@ class Tr:
             self.loop_brk.pop()
             self.loop_ks.pop()
             self.loop_depth -= 1
-            self.tmp, self.size, self.fresh_lists = saved
+            self.tmp, self.size, self.fresh_lists = saved; self.pending_va = None
             ctype, ltype = {}, {}
             for v in carried:
                 ctype[v] = joinall(v, [env[v]] + [e_[v] for e_ in exits if v in e_])
@@ -1702,7 +2061,14 @@ class Tr:
             self.fail(fn, 'only plain positional parameters are supported')
         names = [x.arg for x in a.args]
         has_self = bool(spec.cls) and not spec.inner
-        if has_self:
+        if has_self and spec.classmethod:
+            if not names or names[0] != 'klass' or any(isinstance(n_, ast.Name) and n_.id == 'self' for n_ in ast.walk(fn)):
+                self.fail(fn, 'class method without klass')
+            for n_ in ast.walk(fn):          # the class is read as `self`: only class attributes and the constructor are used of it
+                if isinstance(n_, ast.Name) and n_.id == 'klass':
+                    n_.id = 'self'
+            names = names[1:]
+        elif has_self:
             if not names or names[0] != 'self':
                 self.fail(fn, 'method without self')
             names = names[1:]
@@ -1720,7 +2086,7 @@ class Tr:
                 continue
             env[self.var(p, fn)] = t
         for dec in fn.decorator_list:
-            if not (isinstance(dec, ast.Name) and dec.id == 'property'):
+            if not (isinstance(dec, ast.Name) and (dec.id == 'property' or (dec.id == 'classmethod' and spec.classmethod))):
                 self.fail(fn, 'unsupported decorator')
 
         def k_top(env2, ind2):
@@ -1738,7 +2104,8 @@ class Tr:
         body = self.block(list(fn.body), env, k_top, ret_top, 1)
         used = set(self.used)
         spec.used_attrs = [a_ for a_, _ in spec.self_attrs if a_ in used]
-        order = [t_.get('param') for t_ in spec.templates] + ([spec.new_object['content']] if spec.new_object else [])
+        order = [t_.get('param') for t_ in spec.templates] + ([spec.new_object['content']] + [v_[0] for v_ in spec.new_object.get('derived_params', {}).values()]
+                                                               if spec.new_object else [])
         spec.used_tparams = sorted(self.used_tpl, key=lambda x_: order.index(x_[0]))
         spec.used_vops_ = list(self.used_vops)
         params = []
@@ -1826,6 +2193,40 @@ def translate_all(src, specs, extra_prelude=''):
             body = [s_ for s_ in fn.body if not (isinstance(s_, ast.Expr) and isinstance(s_.value, ast.Constant))]
             if [ast.dump(x) for x in body] != [ast.dump(x) for x in want.body] or [x.arg for x in fn.args.args] != ['self', 'classification']:
                 raise TableError('%s: expected exactly `base, sub = classification; return self.%s[base][sub]`' % (spec.name, spec.state))
+        for at_, chk_ in ((spec.new_object or {}).get('setters', {}) or {}).items():
+            cls_ = [n_ for n_ in src.tree(spec.rel).body if isinstance(n_, ast.ClassDef) and n_.name == spec.cls]
+            sets_ = [n_ for n_ in (cls_[0].body if cls_ else []) if isinstance(n_, ast.FunctionDef) and n_.name == at_
+                     and any(isinstance(d_, ast.Attribute) and d_.attr == 'setter' and isinstance(d_.value, ast.Name) and d_.value.id == at_
+                             for d_ in n_.decorator_list)]
+            if len(sets_) != 1 or [x.arg for x in sets_[0].args.args] != ['self', 'value']:
+                raise TableError('%s: property setter of %s not found' % (spec.name, at_))
+            body_ = [s_ for s_ in sets_[0].body if not (isinstance(s_, ast.Expr) and isinstance(s_.value, ast.Constant))]
+            want_ = []
+            if chk_['check']:
+                want_.append(ast.parse('if not %s:\n    raise %s(0)\n' % (chk_['check'], chk_['err'])).body[0])
+            ok_ = len(body_) == len(want_) + 1
+            if ok_ and want_:
+                got_ = body_[0]
+                ok_ = (isinstance(got_, ast.If) and not got_.orelse and ast.dump(got_.test) == ast.dump(want_[0].test) and len(got_.body) == 1
+                       and isinstance(got_.body[0], ast.Raise) and isinstance(got_.body[0].exc, ast.Call)
+                       and isinstance(got_.body[0].exc.func, ast.Name) and got_.body[0].exc.func.id == chk_['err'])
+            if ok_:
+                last_ = body_[-1]       # the store into the content: self._content[<literal>] = value  /  self._content[<literal>][:] = value
+                tgt_ = last_.targets[0] if isinstance(last_, ast.Assign) and len(last_.targets) == 1 else None
+                if isinstance(tgt_, ast.Subscript) and isinstance(tgt_.slice, ast.Slice):
+                    tgt_ = tgt_.value
+                ok_ = (isinstance(tgt_, ast.Subscript) and isinstance(tgt_.value, ast.Attribute) and tgt_.value.attr == spec.state
+                       and isinstance(tgt_.slice, ast.Constant) and isinstance(last_.value, ast.Name) and last_.value.id == 'value')
+            if not ok_:
+                raise TableError('%s: the property setter of %s is not `[if not <check>: raise ..]; self.%s[..] = value`' % (spec.name, at_, spec.state))
+        if spec.returns_stored:
+            res_ = {'value': ('None', 'self.get_class_dict(classification)[key]'),
+                    'pair': ('(None, None)', '(self.get_class_dict(classification)[key], classification)')}[spec.returns_stored]
+            want = ast.parse('def f(self, key):\n    classification = self.get_classification(key)\n    if classification is None:\n'
+                             '        return %s\n    return %s\n' % res_).body[0]
+            body = [s_ for s_ in fn.body if not (isinstance(s_, ast.Expr) and isinstance(s_.value, ast.Constant))]
+            if [ast.dump(x) for x in body] != [ast.dump(x) for x in want.body] or [x.arg for x in fn.args.args] != ['self', 'key']:
+                raise TableError('%s: expected exactly the stored value of the key (and its classification)' % spec.name)
         out.append(Tr(spec, fn, registry).translate() + '\n')
         registry[(spec.cls, spec.name + (('.' + spec.inner) if spec.inner else ''))] = spec
     return ''.join(out)
